@@ -574,6 +574,12 @@ fn observe_index(cfg: &TxnCfg, db: RawDb, rtxn: &RoTxn, index: u16, ix: &IndexMo
                     if !ok {
                         return e("SL/open-wrong-metric", format!("Reader::<{}>::open on an index of metric {} (built: {built}, stale: {}) = {got_other}", om.short(), metric.short(), ix.stale));
                     }
+                    // the need-build query answers true in exactly the first two situations: a writer
+                    // typed with another metric must give the same answer as the index's own
+                    let need_other = with_metric!(om, OD => arroy::Writer::<OD>::new(arroy_db::<OD>(db), index, dim).need_build(rtxn).map_err(|x| x.to_string()));
+                    if need_other != Ok(want_need) {
+                        return e("SL/need-build-wrong-metric", format!("Writer::<{}>::need_build on an index of metric {} (built: {built}, stale: {}) = {need_other:?}, expected {want_need}", om.short(), metric.short(), ix.stale));
+                    }
                 }
                 w.count("staleness_observations", 1);
                 match want {
